@@ -60,6 +60,17 @@ ROUND3 = {
  "C19": ["round 3: C19_E reported by QUOTE-AGREE (existed); C19_F (trim with a drop set that contains NUL / is not terminated) was MISSED: the trim family was outside the claimed clauses; TRIM-SEMANTICS and ten more helper rules now evaluate all 66 overloads of the pure helpers"],
  "C20": ["round 3: both reported by rules that existed (COMBINE-FORMULA, BOOL-TOTAL); afterwards FAMILY-VALUE, TEMPLATE-VALUE, ROTATE-FRONT, ABS-DIFF-VALUE, SGN-VALUE, DIV-CEIL-VALUE, ROUND-UP-VALUE were added"],
 }
+# fourth round (after the second pass): G and H of every property
+ROUND4 = {
+ "C04": ["round 4: both MISSED (C04_G: scalar classifier descent `<` vs `<=` of its unrolled twin; C04_H: work sharing hands out the top instead of the bottom live level); CLASSIFY-BUCKET evaluates every descent routine of a classifier against the bucket numbering, FRONT-LEVEL ties the level handed out to the level retired"],
+ "C09": ["round 4: C09_H reported by REPLAY-TABLE (existed); C09_G (sentinel taken by value, its address kept in the padding leaves) MISSED; PADDING gained a lifetime clause for every key pointer stored in a node"],
+ "C10": ["round 4: C10_G reported by JOB-LIFETIME (existed); C10_H (lock-free early return testing half of the wait predicate) MISSED; WAIT-RETURN demands that every return of a waiting member has seen its full predicate under the mutex"],
+ "C12": ["round 4: C12_G reported by RC-CONSERVE (existed); C12_H (unify() drops the decrement's result, wrong only if another owner releases concurrently) MISSED; RC-CONSERVE now re-runs every scenario with one step of another owner interleaved before each counter operation"],
+ "C17": ["round 4: C17_G reported by LRU-PUT-STORES (existed); C17_H (`&&` for `||`: splay_erase removes the root for an absent key) MISSED; SPLAY-FOUND is a decision table of every key-equality decision after a splay"],
+ "C18": ["round 4: C18_G reported by the value and byte-order rules (existed); C18_H (pointer shortcut in operator== forgets the length) MISSED because the evaluated operands never shared storage; the value rules now include aliased operands, FIND-VALUE was added"],
+}
+for _p in ("C01", "C02", "C03", "C05", "C06", "C07", "C08", "C11", "C13", "C14", "C15", "C16", "C19", "C20"):
+    ROUND4[_p] = ["round 4: both reported by rules that existed"]
 DROPPED = {
  "C03": ["INSSORT-TWINS compared the general iteration of the LCP insertion sort with its peeled last iteration as text (alpha-renamed): it fired on a behaviour-preserving restructuring of one of the two (§10) and was dropped; no semantic replacement is in reach"],
  "C08": ["TWIN-AGREE compared the decisions of multisequence_partition with those of multisequence_selection as text: it fired on one-sided behaviour-preserving edits (§10). It was replaced by rules that state the requirement directly and caught every seed it used to catch: GUARD-EXACT (a guarding edge is exactly `the element exists`, as a canonical linear inequality) and LEFT-BORDER-BOUND"],
@@ -111,7 +122,7 @@ for p in props:
     if sd:
         print("*Seeded changes:* " + "; ".join("%s → %s" % (m["id"], ", ".join(sorted(set(r["rule"] for r in m["check_result"]["reported_by"]))) or "NOT REPORTED") for m in sd) + ".\n")
     if pid in AFTER_SEED:
-        print("*Seeds and rules, honestly:* " + "; ".join(AFTER_SEED[pid] + ROUND3.get(pid, [])) + ".\n")
+        print("*Seeds and rules, honestly:* " + "; ".join(AFTER_SEED[pid] + ROUND3.get(pid, []) + ROUND4.get(pid, [])) + ".\n")
     if pid in DROPPED:
         print("*Dropped:* " + "; ".join(DROPPED[pid]) + ".\n")
     if pid in FALSE_ALARMS:
